@@ -300,6 +300,17 @@ def x1_x3(ctx):
         akey = arm.key if arm else 'outside-main-match'
         ordinal = sum(1 for c in sites[:sites.index((chain, stmts, i, call))] if (arm_of_line(pp, c[3].get('l')) or arm) is arm)
         t = sx.strip_ref(text)
+        # one emission = one piece of text with one origin: a local that is pushed after further text was appended to it (push_str, +=, insert..)
+        # holds text from two places under a single origin, so the appended bytes map to the wrong file / offset (or to none)
+        if sx.is_path(t) and arm is not None:
+            tv = t['p']
+            asm = [n for n in sx.walk(arm.body) if (n.get('l') or 0) <= (call.get('l') or 0) and (
+                (n.get('k') == 'mcall' and n['m'] in ('push_str', 'push', 'insert_str', 'insert', 'extend') and sx.is_path(sx.strip_ref(n['recv']), tv)) or
+                (n.get('k') in ('assign', 'binary') and str(n.get('op', '')) == '+=' and sx.is_path(n.get('l_', {}), tv)))]
+            if asm:
+                r1.fail('%s:%s:%d:text-assembled' % (CRATE, akey, ordinal), pp.where(asm[0].get('l') or call.get('l')),
+                        '%s: the pushed text `%s` was extended before the push (`%s`): the segment then holds text from two places under the single origin `%s`; the bytes appended '
+                        'map to the wrong file / offset, or to none' % (akey, tv, sq(asm[0])[:50], sx.render(origin)[:40]))
         if sx.is_path(t):
             # a local bound once to the copy: `let comment = locate.str(&s);`
             st_loc, _ = resolve_let(chain, stmts, i, t['p'])
